@@ -238,7 +238,7 @@ func Write(dir string, pkgs []*Pkg, casePrefixes []string) (*Batch, error) {
 	for _, p := range pkgs {
 		pdir := filepath.Join(dir, "cases", p.Name)
 		var drv strings.Builder
-		fmt.Fprintf(&drv, "//go:build !goose\n\npackage %s\n\nimport \"%s/canon\"\n\nfunc RunCases() {\n", p.Name, ModPath)
+		fmt.Fprintf(&drv, "//go:build !goose\n\npackage %s\n\nimport \"%s/canon\"\n\nvar _ = canon.Emit\n\nfunc RunCases() {\n", p.Name, ModPath)
 		var fnames []string
 		for fn := range p.Files {
 			fnames = append(fnames, fn)
